@@ -169,89 +169,11 @@ func c09(c *Ctx) {
 			r.Check(fromOut && !fromVal, "C09.R2", calleeName(callCommon(cl))+" in "+shortName(f), p.Pos(posOf(cl)), "typed by the declared type parameter",
 				"the zero/boxing cell is not typed by the declared result/parameter type")
 		}
-		// R3b: pass-through returns pass a size comparison
-		for _, ret := range returnsOf(f) {
-			if len(ret.Results) != 2 || !isNilConst(ret.Results[1]) {
-				continue
-			}
-			checkEdge := func(val ssa.Value, pred *ssa.BasicBlock, blk *ssa.BasicBlock) {
-				typed := false
-				for _, a := range origins(val) {
-					if a.Kind == "call" && (a.Name == "reflect.Zero" || a.Name == "(reflect.Value).Elem") {
-						typed = true
-					}
-				}
-				cons := fmt.Sprintf("success return of %s via %s", shortName(f), edgeName(pred))
-				if typed {
-					r.OK("C09.R3", cons, p.Pos(posOf(ret)), "value built from the declared type")
-					return
-				}
-				okSz := false
-				if pred != nil {
-					if iff, ok := pred.Instrs[len(pred.Instrs)-1].(*ssa.If); ok {
-						if eqWhen, ok := isSizeCompare(iff.Cond); ok {
-							tookTrue := pred.Succs[0] == blk
-							okSz = tookTrue == eqWhen
-						}
-					}
-				}
-				if !okSz {
-					// maybe dominated by a size-equality guard
-					for _, g := range guardsAt(blk) {
-						if eqWhen, ok := isSizeCompare(g.Cond); ok && g.Pol == eqWhen {
-							okSz = true
-						}
-					}
-				}
-				r.Check(okSz, "C09.R3", cons, p.Pos(posOf(ret)), "pass-through guarded by size equality",
-					"a supplied value reaches the caller as the declared type without a size-equality check: a value of different size is reinterpreted instead of rejected")
-			}
-			if ph, ok := ret.Results[0].(*ssa.Phi); ok && ph.Block() == ret.Block() {
-				for i, e := range ph.Edges {
-					checkEdge(e, ret.Block().Preds[i], ret.Block())
-				}
-			} else {
-				checkEdge(ret.Results[0], nil, ret.Block())
-			}
-		}
 	}
 	if len(convs) == 0 {
 		r.Und("C09.R1", "converter", "", "no function in package arg calls reflect.Zero: converter not found")
 	}
-	// R3a: retyping helper calls dominated by size equality
-	var casters []*ssa.Function
-	for _, f := range argFns {
-		isCaster := false
-		eachInstr(f, func(i ssa.Instruction) {
-			if cv, ok := i.(*ssa.Convert); ok {
-				if strings.Contains(cv.X.Type().String(), "unsafe.Pointer") && strings.Contains(cv.Type().String(), "reflect.Value") {
-					isCaster = true
-				}
-				// role: (reflect.Value, reflect.Type) → reflect.Value helper that goes through unsafe.Pointer
-				sig := f.Signature
-				if sig.Params().Len() == 2 && sig.Results().Len() == 1 && strings.HasSuffix(sig.Params().At(0).Type().String(), "reflect.Value") &&
-					strings.HasSuffix(sig.Params().At(1).Type().String(), "reflect.Type") && strings.HasSuffix(sig.Results().At(0).Type().String(), "reflect.Value") &&
-					(strings.Contains(cv.X.Type().String(), "unsafe.Pointer") || strings.Contains(cv.Type().String(), "unsafe.Pointer")) {
-					isCaster = true
-				}
-			}
-		})
-		if isCaster {
-			casters = append(casters, f)
-		}
-	}
-	for _, cf := range casters {
-		for _, cs := range p.callersOf(cf) {
-			okSz := false
-			for _, g := range guardsAt(cs.Instr.Block()) {
-				if eqWhen, ok := isSizeCompare(g.Cond); ok && g.Pol == eqWhen {
-					okSz = true
-				}
-			}
-			r.Check(okSz, "C09.R3", "unsafe retyping "+shortName(cf)+" called from "+shortName(cs.Caller), p.Pos(posOf(cs.Instr)), "retyping dominated by size equality",
-				"the unsafe retyping helper is reachable without a dominating size-equality check: a stand-in of different size is reinterpreted")
-		}
-	}
+	casters := checkSizeGuards(p, r, "C09.R3", convs)
 	// R6: the retyping helper swaps only the type word: data pointer and flag word of the original value are kept
 	for _, cf := range casters {
 		okShape := false
@@ -451,4 +373,93 @@ func errValueUsed(v ssa.Value) bool {
 		}
 	}
 	return false
+}
+
+// checkSizeGuards (shared by C09.R3 and C13.R6): every pass-through success return of the converters and every call of the
+// unsafe retyping helper is dominated by a size-equality comparison. Returns the retyping helpers found.
+func checkSizeGuards(p *Prog, r *Report, rule string, convs []*ssa.Function) []*ssa.Function {
+	argFns := p.FuncsIn("arg")
+	for _, f := range convs {
+		// R3b: pass-through returns pass a size comparison
+		for _, ret := range returnsOf(f) {
+			if len(ret.Results) != 2 || !isNilConst(ret.Results[1]) {
+				continue
+			}
+			checkEdge := func(val ssa.Value, pred *ssa.BasicBlock, blk *ssa.BasicBlock) {
+				typed := false
+				for _, a := range origins(val) {
+					if a.Kind == "call" && (a.Name == "reflect.Zero" || a.Name == "(reflect.Value).Elem") {
+						typed = true
+					}
+				}
+				cons := fmt.Sprintf("success return of %s via %s", shortName(f), edgeName(pred))
+				if typed {
+					r.OK(rule, cons, p.Pos(posOf(ret)), "value built from the declared type")
+					return
+				}
+				okSz := false
+				if pred != nil {
+					if iff, ok := pred.Instrs[len(pred.Instrs)-1].(*ssa.If); ok {
+						if eqWhen, ok := isSizeCompare(iff.Cond); ok {
+							tookTrue := pred.Succs[0] == blk
+							okSz = tookTrue == eqWhen
+						}
+					}
+				}
+				if !okSz {
+					// maybe dominated by a size-equality guard
+					for _, g := range guardsAt(blk) {
+						if eqWhen, ok := isSizeCompare(g.Cond); ok && g.Pol == eqWhen {
+							okSz = true
+						}
+					}
+				}
+				r.Check(okSz, rule, cons, p.Pos(posOf(ret)), "pass-through guarded by size equality",
+					"a supplied value reaches the caller as the declared type without a size-equality check: a value of different size is reinterpreted instead of rejected")
+			}
+			if ph, ok := ret.Results[0].(*ssa.Phi); ok && ph.Block() == ret.Block() {
+				for i, e := range ph.Edges {
+					checkEdge(e, ret.Block().Preds[i], ret.Block())
+				}
+			} else {
+				checkEdge(ret.Results[0], nil, ret.Block())
+			}
+		}
+	}
+
+	// R3a: retyping helper calls dominated by size equality
+	var casters []*ssa.Function
+	for _, f := range argFns {
+		isCaster := false
+		eachInstr(f, func(i ssa.Instruction) {
+			if cv, ok := i.(*ssa.Convert); ok {
+				if strings.Contains(cv.X.Type().String(), "unsafe.Pointer") && strings.Contains(cv.Type().String(), "reflect.Value") {
+					isCaster = true
+				}
+				// role: (reflect.Value, reflect.Type) → reflect.Value helper that goes through unsafe.Pointer
+				sig := f.Signature
+				if sig.Params().Len() == 2 && sig.Results().Len() == 1 && strings.HasSuffix(sig.Params().At(0).Type().String(), "reflect.Value") &&
+					strings.HasSuffix(sig.Params().At(1).Type().String(), "reflect.Type") && strings.HasSuffix(sig.Results().At(0).Type().String(), "reflect.Value") &&
+					(strings.Contains(cv.X.Type().String(), "unsafe.Pointer") || strings.Contains(cv.Type().String(), "unsafe.Pointer")) {
+					isCaster = true
+				}
+			}
+		})
+		if isCaster {
+			casters = append(casters, f)
+		}
+	}
+	for _, cf := range casters {
+		for _, cs := range p.callersOf(cf) {
+			okSz := false
+			for _, g := range guardsAt(cs.Instr.Block()) {
+				if eqWhen, ok := isSizeCompare(g.Cond); ok && g.Pol == eqWhen {
+					okSz = true
+				}
+			}
+			r.Check(okSz, rule, "unsafe retyping "+shortName(cf)+" called from "+shortName(cs.Caller), p.Pos(posOf(cs.Instr)), "retyping dominated by size equality",
+				"the unsafe retyping helper is reachable without a dominating size-equality check: a stand-in of different size is reinterpreted")
+		}
+	}
+	return casters
 }
